@@ -1,6 +1,119 @@
-/- stub: property C07 has no model driver yet -/
-namespace ActixModel.Drv.C07
+import ActixModel.Util
+import ActixModel.Model.Payload
+/-
+Line-protocol driver for C07 (request-body channel).
 
-def run (_line : String) : String := "unimplemented"
+case   := [ "eof=1" ] [ "wrap=1" ] [ "from=<n>" ] op*            (space separated)
+          from=<n>: the reader is `actix_http::Payload::from(Bytes of n bytes)` (src/payload.rs:
+          create(true), sender dropped at once, unread_data(bytes)); eof=/wrap= are then ignored
+op     := fd:<n>      feed_data(chunk of n bytes)          se:<err>  set_error
+        | fe          feed_eof                             ds        drop(sender)
+        | nr:<w>      need_read(cx of waker w)             isd       sender.is_dropped()
+        | pn:<w>      poll_next(cx of waker w)             ur:<n>    unread_data(chunk of n bytes)
+        | dr          drop(payload)
+err    := inc | inci | enc | ovf | unk | io
+Chunks are identified by the index k of their token among the fd/ur tokens of the case; the
+harness builds chunk k as a fixed byte pattern of the given length, the model carries (k, n).
+`wrap=1` only changes how the harness reaches the reader (through `actix_http::Payload::H1`);
+the model ignores it.
+
+output := one token per op:  <res>{!<w>}@<h0><h1><h2>
+res    := ok | gone | P | D<k>:<n> | E<err> | N | Read | Pause | Dropped | 0 | 1
+`!w`   : waker w was woken by this op (in order);  h_i : how many of the channel's two waker
+slots hold waker i after the op (observed on the real code through `Arc::strong_count`).
+-/
+namespace ActixModel.Drv.C07
+open ActixModel.Util ActixModel.Payload
+
+structure Desc where
+  id : Nat
+  len : Nat
+  deriving DecidableEq, Repr
+
+instance : Chunk Desc := ⟨Desc.len⟩
+
+def errOfTok : String → Option PErr
+  | "inc" => some .incomplete
+  | "inci" => some .incompleteIo
+  | "enc" => some .encodingCorrupted
+  | "ovf" => some .overflow
+  | "unk" => some .unknownLength
+  | "io" => some .io
+  | _ => none
+
+def tokOfErr : PErr → String
+  | .incomplete => "inc"
+  | .incompleteIo => "inci"
+  | .encodingCorrupted => "enc"
+  | .overflow => "ovf"
+  | .unknownLength => "unk"
+  | .io => "io"
+
+def nWakers : Nat := 3
+def maxChunk : Nat := 100000
+def maxChunks : Nat := 4096
+
+/-- parse one op token; `k` = number of data-carrying tokens seen so far -/
+def parseOp (k : Nat) (tok : String) : Option (Op Desc) :=
+  match tok.splitOn ":" with
+  | ["fd", n] => n.toNat?.bind fun n => if n ≤ maxChunk && k < maxChunks - 1 then some (.feedData ⟨k, n⟩) else none
+  | ["ur", n] => n.toNat?.bind fun n => if n ≤ maxChunk && k < maxChunks - 1 then some (.unreadData ⟨k, n⟩) else none
+  | ["fe"] => some .feedEof
+  | ["se", e] => (errOfTok e).map .setError
+  | ["ds"] => some .dropSender
+  | ["nr", w] => w.toNat?.bind fun w => if w < nWakers then some (.needRead w) else none
+  | ["pn", w] => w.toNat?.bind fun w => if w < nWakers then some (.pollNext w) else none
+  | ["isd"] => some .isDropped
+  | ["dr"] => some .dropReader
+  | _ => none
+
+def carriesData (tok : String) : Bool := tok.startsWith "fd:" || tok.startsWith "ur:"
+
+def showRes : Res Desc → String
+  | .unit => "ok"
+  | .gone => "gone"
+  | .poll .pending => "P"
+  | .poll (.data d) => "D" ++ toString d.id ++ ":" ++ toString d.len
+  | .poll (.error e) => "E" ++ tokOfErr e
+  | .poll .eos => "N"
+  | .status .read => "Read"
+  | .status .pause => "Pause"
+  | .status .dropped => "Dropped"
+  | .flag b => if b then "1" else "0"
+
+def held (c : Chan Desc) (w : Nat) : Nat :=
+  (if c.inner.task == some w then 1 else 0) + (if c.inner.ioTask == some w then 1 else 0)
+
+def showHeld (c : Chan Desc) : String :=
+  String.join ((List.range nWakers).map fun w => toString (held c w))
+
+def showOut (c : Chan Desc) (o : Out Desc) : String :=
+  showRes o.res ++ String.join (o.wakes.map fun w => "!" ++ toString w) ++ "@" ++ showHeld c
+
+def runToks : Chan Desc → Nat → List String → List String → List String
+  | _, _, [], acc => acc.reverse
+  | c, k, t :: ts, acc =>
+    let k' := if carriesData t then k + 1 else k
+    match parseOp k t with
+    | some op =>
+      let (c', o) := Chan.step c op
+      runToks c' k' ts (showOut c' o :: acc)
+    | none => runToks c k' ts ("bad-op" :: acc)
+
+/-- `impl<S> From<Bytes> for Payload<S>` (`actix-http/src/payload.rs:50`):
+`let (_, mut pl) = h1::Payload::create(true); pl.unread_data(bytes);` — the sender is dropped at
+once.  The chunk gets the reserved id `maxChunks - 1`. -/
+def fromBytes (n : Nat) : Chan Desc :=
+  Chan.exec (Chan.create true) [.dropSender, .unreadData ⟨maxChunks - 1, n⟩]
+
+def run (line : String) : String :=
+  let ws := words line
+  let eof := kv ws "eof" == some "1"
+  let ops := ws.filter fun w => !w.contains '='
+  let init :=
+    match (kv ws "from").bind String.toNat? with
+    | some n => if n ≤ maxChunk then fromBytes n else Chan.create eof
+    | none => Chan.create eof
+  joinWith " " (runToks init 0 ops [])
 
 end ActixModel.Drv.C07
